@@ -24,8 +24,8 @@ CONFIG = {
               'floors': {'evaluations': 4000, 'distinct_nontrivial': 600, 'descr.redescribe': 1500,
                          'descr.writer': 1500, 'descr.rdkit': 500, 'small.graphs': 3000, 'base.mixture': 1000,
                          'base.symmetric-dimer': 300, 'base.partially-labelled': 100}, 'exhaustive_subspaces': ['labelled connected graphs <= 4 atoms (see rt/enum.py SMALL)']},
-    'thorough': {'shards': 16, 'budget_s': 1100, 'n_corpus': 4200, 'n_ring': 3000, 'k_redescr': 8, 'k_writer': 8,
-                 'k_rdkit': 6,
+    'thorough': {'shards': 16, 'budget_s': 1100, 'n_corpus': 4200, 'n_ring': 10000, 'k_redescr': 20, 'k_writer': 20,
+                 'k_rdkit': 12,
                  'floors': {'evaluations': 40000, 'distinct_nontrivial': 3000, 'descr.redescribe': 15000,
                             'descr.writer': 15000, 'descr.rdkit': 5000, 'small.graphs': 50000, 'base.mixture': 1000,
                             'base.symmetric-dimer': 300, 'base.partially-labelled': 100}, 'exhaustive_subspaces': ['labelled connected graphs <= 5 atoms (see rt/enum.py SMALL)']},
